@@ -164,12 +164,22 @@ class FileDataPdu(AbstractPduBase):
 
     @segment_metadata.setter
     def segment_metadata(self, segment_metadata: Optional[SegmentMetadata]):
+        """
+        :raises ValueError: The PDU data field would become too large. The PDU is left unchanged.
+        """
+        old_segment_metadata = self._params.segment_metadata
+        old_segment_metadata_flag = self._pdu_header.segment_metadata_flag
         self._params.segment_metadata = segment_metadata
         if segment_metadata is None:
             self._pdu_header.segment_metadata_flag = SegmentMetadataFlag.NOT_PRESENT
         else:
             self._pdu_header.segment_metadata_flag = SegmentMetadataFlag.PRESENT
-        self._calculate_pdu_data_field_len()
+        try:
+            self._calculate_pdu_data_field_len()
+        except ValueError:
+            self._params.segment_metadata = old_segment_metadata
+            self._pdu_header.segment_metadata_flag = old_segment_metadata_flag
+            raise
 
     @property
     def file_data(self):
@@ -177,8 +187,16 @@ class FileDataPdu(AbstractPduBase):
 
     @file_data.setter
     def file_data(self, file_data: bytes):
+        """
+        :raises ValueError: The PDU data field would become too large. The PDU is left unchanged.
+        """
+        old_file_data = self._params.file_data
         self._params.file_data = file_data
-        self._calculate_pdu_data_field_len()
+        try:
+            self._calculate_pdu_data_field_len()
+        except ValueError:
+            self._params.file_data = old_file_data
+            raise
 
     def _calculate_pdu_data_field_len(self):
         pdu_data_field_len = 0
